@@ -24,7 +24,6 @@ package checks
 import (
 	"bytes"
 	"encoding/hex"
-	"errors"
 	"fmt"
 	"sort"
 	"strings"
@@ -32,7 +31,6 @@ import (
 
 	"github.com/go-git/go-git/v6/plumbing"
 	"github.com/go-git/go-git/v6/plumbing/filemode"
-	formatcfg "github.com/go-git/go-git/v6/plumbing/format/config"
 	"github.com/go-git/go-git/v6/plumbing/object"
 
 	"verifmc/fw"
@@ -377,8 +375,6 @@ func c04GoEncode(format string, set []c04SetEnt) (raw []byte, err error, panicke
 	})
 	return
 }
-
-var _ = formatcfg.SHA1
 
 // ---------------------------------------------------------------- the check
 
@@ -941,7 +937,7 @@ func c04Encode(c *fw.Ctx, format string) {
 				rep["fsck"] = errs
 				rep["minimal"] = descOf(min)
 				c.Fail("encode: writes a tree git fsck rejects ("+errs[0]+"): "+descOf(min), "Tree.Encode wrote tree "+id+" from "+descOf(s)+"; git fsck --strict: "+strings.Join(errs, ","), rep)
-			} else if valid && !bytes.Equal(r.raw, modelRaw[i]) {
+			} else if c04DistinctNames(s) && !bytes.Equal(r.raw, modelRaw[i]) {
 				rep["want_hex"] = c04Hex(modelRaw[i])
 				c.Fail("encode: written tree is not the git-ordered entry set: "+kindOf(s), "Tree.Encode wrote other bytes than mode/name/id of "+descOf(s)+" in git order", rep)
 			}
@@ -1023,5 +1019,3 @@ func c04Fsck(g *fw.Git) map[string][]string {
 	}
 	return out
 }
-
-var _ = errors.New
